@@ -375,6 +375,13 @@ def run_flow(spec, root, helper):
     if spec.get("kp_reuse"):
         cert["kp_reuse"] = True
     crt_path, key_path = flow.cert_paths(root, name, spec["key_type"])
+    extra_global = None
+    if spec.get("by_ext"):
+        # a file name format that tells the two files apart by their extension only, the certificate's
+        # extension configured, the key's left to its default: two DIFFERENT files (site.crt, site.pem)
+        extra_global = {"file_name_format": "{{ name }}.{{ ext }}", "cert_file_ext": "crt"}
+        crt_path = os.path.join(root, "certs", name + ".crt")
+        key_path = os.path.join(root, "certs", name + ".pem")
     pre_key = {}
 
     def pre(root_, cfg):
@@ -398,7 +405,8 @@ def run_flow(spec, root, helper):
         os.chmod(key_path, 0o600)
         pre_key["pub"] = k["pub_der_hex"]
     obs = flow.run_scenario(root, [cert], ca_opts={"chain_len": spec["chain_len"], "chain_sep": spec.get("chain_sep", ""),
-                                                    "chain_pad": spec.get("chain_pad", 0)}, timeout=40, helper=helper, pre=pre)
+                                                    "chain_pad": spec.get("chain_pad", 0)}, timeout=40, helper=helper, pre=pre,
+                            extra_global=extra_global)
     return obs, crt_path, key_path, pre_key
 
 
@@ -470,6 +478,9 @@ def flows(ctx, n, scratch, helper_factory):
     specs = [flow_spec(ctx.rng, i) for i in range(n)]
     # key-pair re-use asked for, but the stored key cannot be used (not a key / cut to nothing): the
     # attempt generates a key, and that key must be what the key file holds afterwards
+    for j in range(2):
+        specs.append({"key_type": ["ecdsa-p256", "rsa2048"][j], "chain_len": 2, "renew_over_longer": bool(j),
+                      "ids": ["example.org"], "kp_reuse": False, "chain_sep": "", "by_ext": True})
     for j, old in enumerate(("garbage", "empty", "garbage")):
         specs.append({"key_type": ["ecdsa-p256", "rsa2048", "ed25519"][j], "chain_len": 2, "renew_over_longer": True,
                       "ids": ["example.org"], "kp_reuse": True, "chain_sep": "", "old_key": old})
